@@ -92,10 +92,10 @@ theorem fmap_try_out (g : α → List β × Option ε) (as : List α) :
   · intro a; simp only [fmapS]; cases (g a).2 <;> simp [catchEm]
   · intro a; simp only [fmapS]; cases (g a).2 <;> simp [catchAfter]
 
-/-- every send of the run is a `select` send when every loop body only performs `select` sends -/
-theorem run_all_sel (st : Stage σ α β) (hsel : ∀ s a, ∀ e ∈ (st.react s a).2.1, e.mode = .sel)
-    (s0 : σ) (as : List α) : ∀ e ∈ (st.run s0 as).ems, e.mode = .sel := by
-  suffices ∀ (r : Run σ β), (∀ e ∈ r.ems, e.mode = .sel) → ∀ e ∈ (runFrom st r as).ems, e.mode = .sel by
+/-- a predicate that holds of every send of every loop body holds of every send of the run -/
+theorem run_all (st : Stage σ α β) (P : Em β → Prop) (hP : ∀ s a, ∀ e ∈ (st.react s a).2.1, P e)
+    (s0 : σ) (as : List α) : ∀ e ∈ (st.run s0 as).ems, P e := by
+  suffices ∀ (r : Run σ β), (∀ e ∈ r.ems, P e) → ∀ e ∈ (runFrom st r as).ems, P e by
     exact this _ (by simp)
   induction as with
   | nil => intro r hr; simpa using hr
@@ -110,6 +110,10 @@ theorem run_all_sel (st : Stage σ α β) (hsel : ∀ s a, ∀ e ∈ (st.react s
     · simp only [List.mem_append] at he
       rcases he with he | he
       · exact hr e he
-      · exact hsel _ _ e he
+      · exact hP _ _ e he
+
+/-- every send of the run is a `select` send when every loop body only performs `select` sends -/
+theorem run_all_sel (st : Stage σ α β) (hsel : ∀ s a, ∀ e ∈ (st.react s a).2.1, e.mode = .sel)
+    (s0 : σ) (as : List α) : ∀ e ∈ (st.run s0 as).ems, e.mode = .sel := run_all st _ hsel s0 as
 
 end Golem.Lemmas.StageErr
